@@ -55,6 +55,10 @@ func runCrashSim(run int, seed uint64) RunReport {
 	if flTier == "thorough" {
 		cfg.MaxImages = 1200
 	}
+	if cfg.BulkLoser > 0 {
+		cfg.Nested = 0
+		cfg.MaxImages = 12
+	}
 	if cfg.BigTxn {
 		// every image carries a ~1 MB log and a ~1300-row table: keep the exploration small
 		cfg.Nested = 0
